@@ -243,8 +243,9 @@ func (p *Parser) statement() (Statement, error) {
 
 		return &StatementIf{expr, body, elseBody}, nil
 	case While:
+		// only the body is inside the loop: a break or continue in the
+		// condition (in a match block) belongs to an enclosing loop, if any
 		wasInLoop := p.inLoop
-		p.inLoop = true
 		defer func() { p.inLoop = wasInLoop }()
 
 		if err := p.consume(While); err != nil {
@@ -263,6 +264,7 @@ func (p *Parser) statement() (Statement, error) {
 			return nil, err
 		}
 
+		p.inLoop = true
 		body, err := p.statement()
 		if err != nil {
 			return nil, err
@@ -270,8 +272,8 @@ func (p *Parser) statement() (Statement, error) {
 
 		return &StatementWhile{expr, body}, nil
 	case For:
+		// as for while: the header is not inside the loop
 		wasInLoop := p.inLoop
-		p.inLoop = true
 		defer func() { p.inLoop = wasInLoop }()
 
 		// for (
@@ -309,6 +311,7 @@ func (p *Parser) statement() (Statement, error) {
 					return nil, err
 				}
 
+				p.inLoop = true
 				body, err := p.statement()
 				if err != nil {
 					return nil, err
@@ -340,6 +343,7 @@ func (p *Parser) statement() (Statement, error) {
 			return nil, err
 		}
 
+		p.inLoop = true
 		body, err := p.statement()
 		if err != nil {
 			return nil, err
